@@ -209,14 +209,6 @@ func fieldName(t types.Type, idx int) string {
 	return st.Field(idx).Name()
 }
 
-func fieldVar(t types.Type, idx int) *types.Var {
-	st, ok := derefType(t).Underlying().(*types.Struct)
-	if !ok || idx >= st.NumFields() {
-		return nil
-	}
-	return st.Field(idx)
-}
-
 // isInduction: value derived from a loop phi (index of a range loop).
 func isInduction(v ssa.Value) bool {
 	for i := 0; i < 4; i++ {
